@@ -533,12 +533,11 @@ impl Spec {
         // retained bookkeeping
         let hist = self.retained.entry(a.topic.clone()).or_default();
         if a.payload.is_empty() {
+            // only a RETAINED publish with an empty payload removes the retained
+            // message; any other publish leaves "the most recent retained message"
+            // of the topic what it was
             if a.retain {
                 hist.push((idx, RetainedVal::Cleared));
-            } else if !hist.is_empty() {
-                // the statement does not say what a non-retained empty
-                // payload does to the retained message
-                hist.push((idx, RetainedVal::Unspecified));
             }
         } else if a.retain {
             hist.push((idx, RetainedVal::Set(a.payload.clone())));
